@@ -158,6 +158,31 @@ pub struct Report {
     pub replay_filter: Option<String>,
 }
 
+/// `*` matches any run of characters; everything else is literal; the pattern must match the whole key
+pub fn glob_match(pattern: &str, text: &str) -> bool {
+    let parts: Vec<&str> = pattern.split('*').collect();
+    if parts.len() == 1 {
+        return pattern == text;
+    }
+    let mut pos = 0usize;
+    for (i, part) in parts.iter().enumerate() {
+        if i == 0 {
+            if !text.starts_with(part) {
+                return false;
+            }
+            pos = part.len();
+        } else if i == parts.len() - 1 {
+            return text.len() >= pos + part.len() && text[pos..].ends_with(part);
+        } else {
+            match text[pos..].find(part) {
+                Some(j) => pos += j + part.len(),
+                None => return false,
+            }
+        }
+    }
+    true
+}
+
 fn fnv(s: &str) -> u64 {
     let mut h: u64 = 0xcbf29ce484222325;
     for b in s.as_bytes() {
@@ -303,7 +328,7 @@ impl Report {
                 let full = if sub.is_empty() { key.clone() } else { format!("{}#{}", key, sub) };
                 if let Some(k) = known
                     .iter()
-                    .find(|k| k.property == self.id && k.status == "known" && full.starts_with(&k.key))
+                    .find(|k| k.property == self.id && k.status == "known" && glob_match(&k.key, &full))
                 {
                     let e = self.known_hits.entry(k.key.clone()).or_insert((k.what.clone(), 0));
                     e.1 += 1;
